@@ -318,6 +318,24 @@ def hand_partitions() -> dict[str, Callable[[], Any]]:
                    1: part(1, ["out"], ["x"], [], [0], recv={"got": rv})},
             name_to_output={"s": sent, "out": out}, overall_output_names=("out",))
     H["recv_same_part"] = recv_same_part
+
+    def read_by_two_parts() -> Any:
+        # one part output read by two later parts (one placeholder, one cross-part
+        # edge), a user input read by all three, an entry of name_to_output that no
+        # part computes (dead: not drawn)
+        x = _ph("x", (4,))
+        tmp = pt.sin(x) + 1
+        tp = _ph("tmp", (4,))
+        o1 = tp * 2 + x
+        o2 = tp - x
+        dead = pt.cos(x) * 3
+        return DistributedGraphPartition(
+            parts={0: part(0, ["tmp"], ["x"]),
+                   1: part(1, ["o1"], ["x"], ["tmp"], [0]),
+                   2: part(2, ["o2"], ["x"], ["tmp"], [0])},
+            name_to_output={"tmp": tmp, "o1": o1, "o2": o2, "dead": dead},
+            overall_output_names=("o1", "o2"))
+    H["read_by_two_parts"] = read_by_two_parts
     return H
 
 
